@@ -6,9 +6,11 @@
 package stream
 
 import (
+	"bytes"
 	"errors"
 	"io"
 	"net"
+	"os"
 	"sync"
 	"sync/atomic"
 	"time"
@@ -36,6 +38,7 @@ type dir struct {
 	limit     int64  // cut: deliver exactly this many bytes, then break the link; -1 = none
 	edits     []Edit
 	wclosed   bool // writer side closed its end
+	peerGone  bool // the reader of this direction hung up: further writes fail (net.Pipe semantics)
 }
 
 type link struct {
@@ -63,6 +66,7 @@ type End struct {
 	txBuf    *int64
 	flushes  *int32
 	readGate func()
+	hangUp   bool
 }
 
 // Pair returns the two connected endpoints.
@@ -193,6 +197,11 @@ func (e *End) Write(p []byte) (int, error) {
 		return 0, net.ErrClosed
 	}
 	out := &l.d[e.idx]
+	if out.peerGone {
+		out.written = append(out.written, p...)
+		out.wrOff += int64(len(p))
+		return 0, io.ErrClosedPipe
+	}
 	if l.broken {
 		// like a dead radio link: the local TNC keeps accepting bytes for a while
 		out.written = append(out.written, p...)
@@ -230,6 +239,11 @@ func (e *End) Write(p []byte) (int, error) {
 	return len(p), nil
 }
 
+// HangUpOnClose makes Close of this end behave like hanging up a synchronous link (net.Pipe, a telnet connection
+// after the reset has come back): what this end wrote before stays readable for the other end, but every Write of
+// the other end fails from then on with io.ErrClosedPipe instead of vanishing silently.
+func (e *End) HangUpOnClose() { e.hangUp = true }
+
 func (e *End) Close() error {
 	atomic.AddInt32(&e.Closes, 1)
 	l := e.l
@@ -240,6 +254,9 @@ func (e *End) Close() error {
 	}
 	e.closed = true
 	l.d[e.idx].wclosed = true
+	if e.hangUp {
+		l.d[1-e.idx].peerGone = true
+	}
 	l.cond.Broadcast()
 	return nil
 }
@@ -322,9 +339,20 @@ type Scripted struct {
 	Out    []byte
 	Closes int32
 	closed bool
+
+	// StallOnEcho: the remote stops reading the moment the Session starts to report an error to it (a Write that
+	// begins with "*** "): its window is full, that Write cannot complete. With a write deadline set on the
+	// connection the Write fails with a timeout at once (the deadline is fast-forwarded, nobody waits a minute);
+	// without one it blocks until the connection is closed.
+	StallOnEcho bool
+	Stalled     bool // such a Write happened
+	wdeadline   time.Time
+	gone        chan struct{}
 }
 
-func NewScripted(in []byte, sched []int) *Scripted { return &Scripted{in: in, sched: sched} }
+func NewScripted(in []byte, sched []int) *Scripted {
+	return &Scripted{in: in, sched: sched, gone: make(chan struct{})}
+}
 
 func (s *Scripted) Read(p []byte) (int, error) {
 	s.mu.Lock()
@@ -358,6 +386,16 @@ func (s *Scripted) Consumed() int { s.mu.Lock(); defer s.mu.Unlock(); return s.p
 
 func (s *Scripted) Write(p []byte) (int, error) {
 	s.mu.Lock()
+	if s.StallOnEcho && !s.closed && bytes.HasPrefix(p, []byte("*** ")) {
+		s.Stalled = true
+		dl := s.wdeadline
+		s.mu.Unlock()
+		if !dl.IsZero() {
+			return 0, os.ErrDeadlineExceeded
+		}
+		<-s.gone
+		return 0, net.ErrClosed
+	}
 	defer s.mu.Unlock()
 	if s.closed {
 		return 0, net.ErrClosed
@@ -371,13 +409,17 @@ func (s *Scripted) Write(p []byte) (int, error) {
 func (s *Scripted) Close() error {
 	atomic.AddInt32(&s.Closes, 1)
 	s.mu.Lock()
+	if !s.closed && s.gone != nil {
+		close(s.gone)
+	}
 	s.closed = true
 	s.mu.Unlock()
 	return nil
 }
+func (s *Scripted) setWDeadline(t time.Time) { s.mu.Lock(); s.wdeadline = t; s.mu.Unlock() }
 func (s *Scripted) CloseCount() int                    { return int(atomic.LoadInt32(&s.Closes)) }
 func (s *Scripted) LocalAddr() net.Addr                { return addr("local") }
 func (s *Scripted) RemoteAddr() net.Addr               { return addr("remote") }
-func (s *Scripted) SetDeadline(t time.Time) error      { return nil }
+func (s *Scripted) SetDeadline(t time.Time) error      { s.setWDeadline(t); return nil }
 func (s *Scripted) SetReadDeadline(t time.Time) error  { return nil }
-func (s *Scripted) SetWriteDeadline(t time.Time) error { return nil }
+func (s *Scripted) SetWriteDeadline(t time.Time) error { s.setWDeadline(t); return nil }
